@@ -352,7 +352,7 @@ func c18Rules(p *core.Prog, r *core.Run) {
 			okSel = hasDone && hasWake && hasAfter
 		}
 		r.Check("C18.K6", "feeder:pacing", paced && okSel && fn.Parent() == m.feeder, p.InstrPos(s), "the one send site is reached directly only for the first target; otherwise through a select on {Done, wake after a failure, time.After(ConcurrencyDelay or 1 s)} (%v)", okSel)
-		r.Check("C18.K6", "feeder:order", val.Op == "param" && val.Name == "c0", p.InstrPos(s), "targets are sent in the iteration order of the target sequence (the yielded value itself)")
+		r.Check("C18.K6", "feeder:order", val.Op == "param" && val.Name == "cc0", p.InstrPos(s), "targets are sent in the iteration order of the target sequence (the yielded value itself)")
 	} else {
 		r.Check("C18.K6", "feeder:send-sites", false, p.Pos(m.feeder.Pos()), "expected one send site in the feeder, found %d", len(sends))
 	}
